@@ -21,17 +21,6 @@ impl World {
         }
         let (sa, sb) = (self.scheduled(a), self.scheduled(b));
         let (na, nb) = (self.nodes[a].as_ref().unwrap(), self.nodes[b].as_ref().unwrap());
-        // A member that one side would send (holds it, has not scheduled it) while the other side
-        // has stopped advertising it (scheduled for deletion, or removed and remembered) is sent
-        // from version 0 with priority and can use up the datagram (observation O-5): the
-        // per-handshake guarantee is only claimed when no such member exists.
-        for (s_view, s_sched, r_sched, r_removed) in [(&na.view, &sa, &sb, &nb.removed_hb), (&nb.view, &sb, &sa, &na.removed_hb)] {
-            for id in s_view.keys() {
-                if !s_sched.contains(id) && (r_sched.contains(id) || r_removed.contains_key(id)) {
-                    return out;
-                }
-            }
-        }
         let ids: HashSet<&Id> = na.view.keys().chain(nb.view.keys()).collect();
         for id in ids {
             if sa.contains(id) || sb.contains(id) || na.removed_hb.contains_key(id) || nb.removed_hb.contains_key(id) {
@@ -44,6 +33,31 @@ impl World {
             }
         }
         out
+    }
+
+    /// KF-2 signature: a member that one of a, b still advertises (holds it, has not scheduled it
+    /// for deletion) while the other has stopped advertising it (scheduled for deletion, or removed
+    /// and remembered). The advertiser sends it from version 0 with the "unknown member" priority
+    /// at every handshake; the other side already has it and refuses it, and its bytes can use up
+    /// the datagram that the lagging member needed.
+    fn hog(&self, a: usize, b: usize) -> Option<Id> {
+        let (sa, sb) = (self.scheduled(a), self.scheduled(b));
+        let (na, nb) = (self.nodes[a].as_ref().unwrap(), self.nodes[b].as_ref().unwrap());
+        for (s_view, s_sched, r_sched, r_removed) in [(&na.view, &sa, &sb, &nb.removed_hb), (&nb.view, &sb, &sa, &na.removed_hb)] {
+            for id in s_view.keys() {
+                if !s_sched.contains(id) && (r_sched.contains(id) || r_removed.contains_key(id)) {
+                    return Some(id.clone());
+                }
+            }
+        }
+        None
+    }
+
+    fn known_kf2(&mut self, what: String) {
+        self.stats.inc("known_KF2_hits");
+        if self.known_hits.len() < 4 {
+            self.known_hits.push(format!("KF-2 {what}"));
+        }
     }
 
     fn rank(&self, ps: &[usize]) -> Vec<(usize, Id, (u64, u64))> {
@@ -82,6 +96,7 @@ impl World {
             return Ok(false);
         }
         let lag = if self.on("C01") { self.lagging(a, b) } else { Vec::new() };
+        let hog = if lag.is_empty() { None } else { self.hog(a, b) };
         let before = self.rank(&[a, b]);
         let seq0 = self.flight_seq;
         if !self.syn(a, b)? {
@@ -100,6 +115,11 @@ impl World {
             self.stats.inc("handshakes_with_lag");
             let after = self.rank(&[a, b]);
             if !Self::progressed(&before, &after) {
+                if let Some(h) = hog {
+                    self.hog_seen = true;
+                    self.known_kf2(format!("complete handshake n{a}<->n{b} advanced no copy although they differ on {}: {} is still sent by one side and no longer advertised by the other", lag[0].short(), h.short()));
+                    return Ok(complete);
+                }
                 return Err(self.viol(
                     "C01",
                     "C01.handshake_no_progress",
@@ -130,11 +150,17 @@ impl World {
         let running = self.cluster_running();
         let before = self.rank(&running);
         let mut lag_at_start = false;
+        let mut hog_in_round = false;
         if self.on("C01") {
             for &a in &running {
                 for &b in &running {
-                    if a < b && !self.lagging(a, b).is_empty() {
-                        lag_at_start = true;
+                    if a < b && self.cfg.cluster_of[a] == self.cfg.cluster_of[b] {
+                        if !self.lagging(a, b).is_empty() {
+                            lag_at_start = true;
+                        }
+                        if self.hog(a, b).is_some() {
+                            hog_in_round = true;
+                        }
                     }
                 }
             }
@@ -157,9 +183,23 @@ impl World {
                     }
                 }
             }
+            for &a in &running {
+                for &b in &running {
+                    if a < b && self.cfg.cluster_of[a] == self.cfg.cluster_of[b] && self.hog(a, b).is_some() {
+                        hog_in_round = true;
+                    }
+                }
+            }
+            if hog_in_round {
+                self.hog_seen = true;
+            }
             if lag_left && lag_at_start {
                 let after = self.rank(&running);
                 if !Self::progressed(&before, &after) {
+                    if hog_in_round {
+                        self.known_kf2(format!("quiesce round {} ended with a lag and no copy advanced while a member was sent by one side and no longer advertised by the other", self.quiesce_rounds));
+                        return Ok(());
+                    }
                     return Err(self.viol("C01", "C01.idle_round", format!("quiesce round {} ended with a lag and no copy advanced", self.quiesce_rounds)));
                 }
             }
@@ -214,6 +254,10 @@ impl World {
         self.stats.max("max_quiesce_rounds", self.quiesce_rounds);
         if let Err(e) = self.converged() {
             if self.quiesce_rounds >= self.quiesce_budget {
+                if self.hog_seen {
+                    self.known_kf2(format!("not converged after {} loss-free all-pairs rounds (budget {}): {e}", self.quiesce_rounds, self.quiesce_budget));
+                    return Ok(());
+                }
                 return Err(self.viol("C01", "C01.not_converged", format!("after {} loss-free all-pairs rounds (budget {}): {e}", self.quiesce_rounds, self.quiesce_budget)));
             }
         } else {
